@@ -665,6 +665,27 @@ pub(crate) async fn fashare(
         return Err(Error::InvalidLength);
     }
 
+    // Before opening anything that depends on the other parties' claimed check bits, verify each
+    // claimed bit against the MAC under our own key: otherwise a party lying about its bit makes
+    // us open d0 ^ delta instead of d0 (or vice versa), which together with its MAC reveals delta.
+    for r in 0..RHO {
+        for k in (0..n).filter(|k| *k != i) {
+            let dm = &dm_k[k][r];
+            if dm[0] > 1 {
+                return Err(Error::InvalidBitValue);
+            }
+            // position of the MAC under our key in k's decommitment (k skips its own index)
+            let start = if i > k { 1 + (i - 1) * 16 } else { 1 + i * 16 };
+            let Ok(mac) = dm[start..start + 16].try_into().map(u128::from_be_bytes) else {
+                return Err(Error::ConversionErr);
+            };
+            let (_, key) = xishares[l + r].1.0[k];
+            if mac != key.0 ^ if dm[0] != 0 { delta.0 } else { 0 } {
+                return Err(Error::AShareWrongMAC);
+            }
+        }
+    }
+
     // 3 c) Compute bi to determine di_bi and send to all parties.
     let mut bi = [false; RHO];
     let mut di_bi = vec![0; RHO];
